@@ -296,3 +296,39 @@ func VerifH_C06_truncatedBody() {
 		vAssert(prefixOf(objs, m.expected()), "nothing-invented")
 	}
 }
+
+// VerifH_C06_staleStringTable: a worker that has decoded a good block is given a block
+// WITHOUT a string table whose elements reference strings: the references are out
+// of range (error), they must not resolve against the previous block's table.
+func VerifH_C06_staleStringTable() {
+	good := &mBlock{width: 2, exact: true}
+	good.genStrings(3)
+	good.genDense(1, 0, 1, true)
+	bad := &mBlock{width: 2, exact: true}
+	bad.genStrings(3) // indexes are drawn against 3 strings, but the table is not written
+	kind := vRange("kind", 0, 2)
+	switch kind {
+	case 0:
+		bad.genDense(1, 0, 1, true)
+	case 1:
+		bad.ways = append(bad.ways, bad.genWay(0, 1, 1, 1))
+	case 2:
+		bad.rels = append(bad.rels, bad.genRel(0, 1, 1, true))
+	}
+	full := bad.encode()
+	// strip the leading string table field (field 1 is written first by the writer)
+	var st pbw
+	for _, s := range bad.st {
+		st.bytesField(1, []byte(s))
+	}
+	var hdr pbw
+	hdr.bytesField(1, st.b)
+	stripped := full[len(hdr.b):]
+	dd := &dataDecoder{scanner: &Scanner{}}
+	_, err := dd.Decode(&osmpbf.Blob{Raw: good.encode()})
+	vAssert(err == nil, "good-block-decodes")
+	objs, err := dd.Decode(&osmpbf.Blob{Raw: stripped})
+	vReach("decoded")
+	vAssert(err != nil, "references-into-a-missing-string-table-are-an-error")
+	_ = objs
+}
